@@ -201,6 +201,7 @@ func (rb *ResourceBank) Alloc(rtyp reflect.Type) unsafe.Pointer {
 	// Because we're re-using we need to clear the memory ourselves. Should perhaps
 	// do this on Close
 	typedmemclr(rt.ptyp, ptr)
+	verifPoint("bank.alloc")
 	return ptr
 }
 
@@ -224,6 +225,7 @@ func (rb *ResourceBank) findTyp(rtyp reflect.Type) *resourceType {
 
 // Close marks the resources in the ResourceBank as available for re-use
 func (rb *ResourceBank) Close() {
+	verifPoint("bank.close")
 	// We don't free the memory here. We keep our arrays at the maximum size we've
 	// needed, but we set the length used to zero so we can re-use it all.
 	for i := range rb.types {
